@@ -851,6 +851,16 @@ struct Sink {
 }
 
 impl Sink {
+    /// the first three violations of a key are written out in full; later ones are only counted
+    fn full(&mut self, key: &str) -> bool {
+        match self.counts.get_mut(key) {
+            Some(n) if *n >= 3 => {
+                *n += 1;
+                true
+            }
+            _ => false,
+        }
+    }
     fn viol(&mut self, key: String, what: String, replay: Value) {
         let n = self.counts.entry(key.clone()).or_insert(0);
         *n += 1;
@@ -1018,6 +1028,9 @@ fn check_c02(doc: &Doc, buf: &mut Vec<u8>, sink: &mut Sink, stats: &mut Stats, s
                 })).unwrap_or(false);
                 for g in regs.iter() {
                     let key = if *g == "padding_bytes" { "C02:noncanonical:padding_bytes".to_string() } else { format!("C02:noncanonical:{}:{}", g, cls) };
+                    if sink.full(&key) {
+                        continue;
+                    }
                     sink.viol(key, format!("the event parsed from JSON into a buffer pre-filled with {} differs from the same event built from parts in region {} (document class {})", how, g, cls),
                               replay_of("C02", doc, json!({"prefill": how, "region": g, "parsed": short(&o.bytes), "reference": short(&r0)})));
                 }
@@ -1102,6 +1115,9 @@ fn check_c02(doc: &Doc, buf: &mut Vec<u8>, sink: &mut Sink, stats: &mut Stats, s
         Outcome::Ok(o) => {
             for g in diff_regions(&o.bytes, &r0, tlen) {
                 let key = if g == "padding_bytes" { "C02:noncanonical:padding_bytes".to_string() } else { format!("C02:reparse:differs:{}:{}", g, cls) };
+                if sink.full(&key) {
+                    continue;
+                }
                 sink.viol(key, format!("from_json(as_json(event)) differs from the event in region {}", g),
                           replay_of("C02", doc, json!({"as_json": jtxt, "region": g})));
             }
@@ -1257,21 +1273,17 @@ fn sweep(prop: &str, list: &[u32], buf: &mut Vec<u8>, sink: &mut Sink, stats: &m
                     Some(d) => d,
                     None => continue,
                 };
-                let before: u64 = sink.counts.values().sum::<u64>() + sink.toolerrs;
-                let mut tmp = Sink { out: BufWriter::new(std::fs::File::create("/dev/null").unwrap()), counts: BTreeMap::new(), toolerrs: 0 };
-                let mut tstats = Stats::default();
-                let mut tseen = HashSet::new();
-                run_doc(prop, &doc, buf, &mut tmp, &mut tstats, &mut tseen, seed, false);
-                if tmp.toolerrs == 0 && tmp.counts.keys().all(|k| k == "C02:noncanonical:padding_bytes") {
-                    // clean batch (or only the value-independent padding clause): account for it as a whole
-                    run_doc(prop, &doc, buf, sink, stats, seen, seed, false);
-                    let _ = before;
-                } else {
-                    // pin the failing scalars one by one
+                // the batch is a document like any other; if it shows anything but the (value independent)
+                // padding clause, the scalars are also run one by one to name the failing ones
+                let count = |sk: &Sink| -> u64 {
+                    sk.counts.iter().filter(|(k, _)| k.as_str() != "C02:noncanonical:padding_bytes").map(|(_, v)| *v).sum::<u64>() + sk.toolerrs
+                };
+                let before = count(sink);
+                run_doc(prop, &doc, buf, sink, stats, seen, seed, false);
+                if count(sink) != before && part.len() > 1 {
                     for c in part {
                         if let Some(mut d1) = sweep_doc(&[*c], sp, bi as u64) {
-                            d1.class = format!("{}:U+{:04X}", d1.class, if sink.counts.len() < 40 { *c } else { 0xFFFFFFFF });
-                            d1.class = d1.class.replace(":U+FFFFFFFF", ":more");
+                            d1.class = if sink.counts.len() < 40 { format!("{}:U+{:04X}", d1.class, *c) } else { format!("{}:more", d1.class) };
                             run_doc(prop, &d1, buf, sink, stats, seen, seed, false);
                         }
                     }
